@@ -100,7 +100,7 @@ def ctor(kind):
 
 
 # ---- integration: the number of solutions is data dependent ------------------------------
-def integ(kind, N):
+def integ(kind, N, overlapping=False):
     def h(ctx):
         n = ctx.choice("n", N + 1)
         objs = [P(ctx.fresh_int("a%d" % i)) for i in range(n)]
@@ -112,31 +112,52 @@ def integ(kind, N):
         c, lower, upper = make_constraint(kind, lo, hi)
         x = let(P, objs, name="x")
         q = an(entity(x, x.a > k), quantification=c)
-        got, exc = [], None
-        try:
-            for r in q.evaluate():
-                got.append(index_of(objs, r))
-        except GreaterThanExpectedNumberOfSolutions:
-            exc = "greater"
-        except LessThanExpectedNumberOfSolutions:
-            exc = "less"
-        ctx.observe(n, got, exc)
-        ctx.note("nonempty", bool(got))
+        def advance(it, got):
+            """one step; returns None while running, else the way the evaluation ended"""
+            try:
+                got.append(index_of(objs, next(it)))
+                return None
+            except StopIteration:
+                return "done"
+            except GreaterThanExpectedNumberOfSolutions:
+                return "greater"
+            except LessThanExpectedNumberOfSolutions:
+                return "less"
+
+        runs = []
+        if not overlapping:
+            it, got, end = q.evaluate(), [], None
+            while end is None:
+                end = advance(it, got)
+            runs.append(("", got, end))
+        else:
+            # two evaluations of the same query object alive at once, advanced alternately: each counts its own solutions
+            its = [q.evaluate(), q.evaluate()]
+            gots, ends = [[], []], [None, None]
+            while ends[0] is None or ends[1] is None:
+                for j in (0, 1):
+                    if ends[j] is None:
+                        ends[j] = advance(its[j], gots[j])
+            runs = [("first:", gots[0], ends[0]), ("second:", gots[1], ends[1])]
+        ctx.observe(n, [(g, e) for _, g, e in runs])
+        ctx.note("nonempty", any(g for _, g, e in runs))
         sat = [o.a > k for o in objs]
         count = SUM(B2I(s) for s in sat)
         greater, less = spec(count, lower, upper, True)
         v = {}
-        v["only-solutions"] = AND([sat[i] for i in got]) if got else True
-        v["no-duplicates"] = len(set(got)) == len(got)
-        if exc == "greater":
-            v["outcome"] = greater
-            v["never-more-than-upper"] = len(got) <= upper
-        elif exc == "less":
-            v["outcome"] = less
-            v["all-yielded"] = AND([IMPLIES(sat[i], i in got) for i in range(n)])
-        else:
-            v["outcome"] = AND(NOT(greater), NOT(less))
-            v["all-yielded"] = AND([IMPLIES(sat[i], i in got) for i in range(n)])
+        for pre, got, end in runs:
+            exc = None if end == "done" else end
+            v[pre + "only-solutions"] = AND([sat[i] for i in got]) if got else True
+            v[pre + "no-duplicates"] = len(set(got)) == len(got)
+            if exc == "greater":
+                v[pre + "outcome"] = greater
+                v[pre + "never-more-than-upper"] = len(got) <= upper
+            elif exc == "less":
+                v[pre + "outcome"] = less
+                v[pre + "all-yielded"] = AND([IMPLIES(sat[i], i in got) for i in range(n)])
+            else:
+                v[pre + "outcome"] = AND(NOT(greater), NOT(less))
+                v[pre + "all-yielded"] = AND([IMPLIES(sat[i], i in got) for i in range(n)])
         return v
 
     return h
@@ -176,6 +197,8 @@ def cases(tier, seed):
         cs.append(Case("leaf:%s" % k, leaf(k), reset=eql_reset, meta=dict(ints="unbounded")))
         cs.append(Case("ctor:%s" % k, ctor(k), reset=eql_reset, meta=dict(ints="unbounded")))
         cs.append(Case("an:%s|N<=%d" % (k, N), integ(k, N), key="an:%s" % k, reset=eql_reset, timeout=600, max_paths=200000, meta=dict(N=N)))
+        M_ = 3 if tier == "quick" else 4
+        cs.append(Case("an:%s|two overlapping evaluations|N<=%d" % (k, M_), integ(k, M_, overlapping=True), key="an:%s|overlapping" % k, reset=eql_reset, timeout=600, max_paths=200000, meta=dict(N=M_)))
     cs.append(Case("the|N<=%d" % N, the_case(N), key="the", reset=eql_reset, timeout=600, meta=dict(N=N)))
     return cs
 
@@ -183,7 +206,7 @@ def cases(tier, seed):
 def describe(tier):
     N = 4 if tier == "quick" else 6
     return dict(
-        rule="one case per constraint class x {leaf assert_satisfaction, constructor, an(...) integration} + the(); "
+        rule="one case per constraint class x {leaf assert_satisfaction, constructor, an(...) integration, an(...) with two evaluations of the same query object advanced alternately} + the(); "
         "a case is non-trivial when its exploration has >= 2 feasible paths and some path yields a result or raises",
         bounds=dict(domain_size="0..%d objects (symbolic)" % N, bounds_and_counts="unbounded integers (z3 Int)", attribute_values="unbounded integers"),
         outside=["domains larger than %d objects in the integration cases" % N, "non-integer bounds"],
